@@ -144,6 +144,19 @@ theorem ensemble_run_members (agg : Option Agg) (names : List String) (Fs : List
       simp only [memberOps, hf]
       exact (Forecaster.run_cons_eq_ok _).mpr
         ⟨_, some q, l, oi, li, (Forecaster.step_predict_eq_ok _).mpr ⟨q, hl, rfl⟩, hi', rfl, rfl⟩
+    | setCutoff c =>
+      obtain ⟨hs, rfl, rfl⟩ := (Forecaster.step_setCutoff_eq_ok _).mp hstep
+      simp only [ensemble, Option.map_some, Prod.mk.injEq] at hs
+      obtain ⟨rfl, rfl⟩ := hs
+      obtain ⟨b', ss', rfl, ih⟩ := ensemble_run_members agg names Fs ops hnf' _ _ st os l2 hrun
+      refine ⟨b', ss', rfl, ?_⟩
+      intro i hi
+      obtain ⟨oi, li, hi'⟩ := ih i hi
+      rw [setCutoffAll_get] at hi'
+      refine ⟨none :: oi, [] ++ li, ?_⟩
+      simp only [memberOps]
+      exact (Forecaster.run_cons_eq_ok _).mpr
+        ⟨_, none, [], oi, li, (Forecaster.step_setCutoff_eq_ok _).mpr ⟨rfl, rfl, rfl⟩, hi', rfl, rfl⟩
 
 /-- multiplexer: a fit-free history on the multiplexer is the history `memberOps` on the selected
 member, with the same outputs and the same log -/
@@ -178,6 +191,15 @@ theorem mux_run (chk : Except Err Unit) (F : Forecaster) :
       simp only [memberOps, hf]
       exact (Forecaster.run_cons_eq_ok _).mpr
         ⟨_, some p, l1, os, l2, (Forecaster.step_predict_eq_ok _).mpr ⟨p, hF, rfl⟩, ih, rfl, rfl⟩
+    | setCutoff c =>
+      obtain ⟨hs, rfl, rfl⟩ := (Forecaster.step_setCutoff_eq_ok _).mp hstep
+      simp only [muxOn, Option.map_some, Prod.mk.injEq] at hs
+      obtain ⟨rfl, rfl⟩ := hs
+      obtain ⟨b', s', rfl, ih⟩ := mux_run chk F ops hnf' _ _ st os l2 hrun
+      refine ⟨b', s', rfl, ?_⟩
+      simp only [memberOps]
+      exact (Forecaster.run_cons_eq_ok _).mpr
+        ⟨_, none, [], os, l2, (Forecaster.step_setCutoff_eq_ok _).mpr ⟨rfl, rfl, rfl⟩, ih, rfl, rfl⟩
 
 /-- pipeline (`fixed = true`: repaired update; `fixed = false`: update as coded, then only for
 update-free histories): after a fit-free history the final forecaster has been through exactly the
@@ -226,6 +248,18 @@ theorem pipeline_run (fixed : Bool) (Ts : List Transformer) (F : Forecaster) :
         exact bind_eq_ok.mpr ⟨(ts', iops), lt, [], hr, rfl, by simp⟩
       · exact (Forecaster.run_cons_eq_ok _).mpr
           ⟨_, some q, la, oi, li, (Forecaster.step_predict_eq_ok _).mpr ⟨q, hF, rfl⟩, hi, rfl, rfl⟩
+    | setCutoff c =>
+      have hfx' : fixed = true ∨ noUpdate ops := hfx.imp id (fun h1 => (noUpdate_cons h1).2)
+      obtain ⟨hs, rfl, rfl⟩ := (Forecaster.step_setCutoff_eq_ok _).mp hstep
+      simp only [pipelineG, Option.map_some, Prod.mk.injEq] at hs
+      obtain ⟨rfl, rfl⟩ := hs
+      obtain ⟨b', ts', s', iops, lt, oi, li, rfl, hr, hi⟩ :=
+        pipeline_run fixed Ts F ops hnf' hfx' _ ts (F.setCutoff s c) st os l2 hrun
+      refine ⟨b', ts', s', .setCutoff c :: iops, lt, none :: oi, [] ++ li, rfl, ?_, ?_⟩
+      · simp only [reprOps]
+        exact bind_eq_ok.mpr ⟨(ts', iops), lt, [], hr, rfl, by simp⟩
+      · exact (Forecaster.run_cons_eq_ok _).mpr
+          ⟨_, none, [], oi, li, (Forecaster.step_setCutoff_eq_ok _).mpr ⟨rfl, rfl, rfl⟩, hi, rfl, rfl⟩
 
 /-! ### the spy, selection by name, explicit horizons, the hold-out split -/
 
@@ -253,6 +287,9 @@ theorem spy_run_state : ∀ (ops : List Op) (s0 s : List Op) (outs : List (Optio
         simp only [spy] at hf
         obtain ⟨h2, _⟩ := pure_eq_ok.mp hf
         cases h2; rfl
+      | setCutoff c =>
+        obtain ⟨h2, _, _⟩ := (Forecaster.step_setCutoff_eq_ok spy).mp hstep
+        exact h2
     have := spy_run_state ops s1 s os l2 hrun
     rw [this, h1]; simp
 
@@ -289,6 +326,9 @@ theorem memberOps_explicit : ∀ (ops : List Op) (cur : Option Horizon),
     simp only [memberOps]
     rw [memberOps_explicit r _ (fun g hg => h g (List.mem_cons_of_mem _ hg))]
   | .update y up :: r, cur, h => by
+    simp only [memberOps]
+    rw [memberOps_explicit r _ (fun g hg => h g (List.mem_cons_of_mem _ hg))]
+  | .setCutoff c :: r, cur, h => by
     simp only [memberOps]
     rw [memberOps_explicit r _ (fun g hg => h g (List.mem_cons_of_mem _ hg))]
 
